@@ -104,10 +104,17 @@ Fixpoint dedup (l : list str) (seen : list str) : list str :=
   | x :: r => if mem_str x seen then dedup r seen else x :: dedup r (x :: seen)
   end.
 
-(* *outersUsed after the body of AddArgs(names) over chain c saw the lookups u *)
+(* *outersUsed after the body of AddArgs(names) over chain c saw the lookups u: a lookup that passes the layer
+   and is found below as a non-constant records the identifier - or, for an attribute of an implicit map
+   (ThisName set), the map *)
 Definition outers_of (c : idents) (names : list str) (u : list str) : list str :=
-  dedup (filter (fun n => negb (mem_str n names) &&
-                          match lookup c n with Some i => negb (id_const i) | None => false end) u) [].
+  dedup (flat_map (fun n =>
+           if mem_str n names then []
+           else match lookup c n with
+                | Some i => if id_const i then []
+                            else match id_this i with [] => [n] | this => [this] end
+                | None => []
+                end) u) [].
 
 (* ---------- configuration ---------- *)
 Record pcfg := mkPcfg {
@@ -151,10 +158,10 @@ Fixpoint parse_identlist (fuel : nat) (names : list str) (ts : list tk) : pres (
 Definition resolve (ids : idents) (name : str) : option ast :=
   match lookup ids name with
   | Some i =>
-      if id_const i then (if id_func i then Some (AIdent name) else Some (AConst (id_val i)))
+      if id_const i then (if id_func i then Some (AIdent name true) else Some (AConst (id_val i)))
       else match id_this i with
-           | [] => Some (AIdent name)
-           | this => Some (AAccess name (AIdent this))
+           | [] => Some (AIdent name false)
+           | this => Some (AAccess name (AIdent this false))
            end
   | None => None
   end.
